@@ -800,6 +800,9 @@ func nearValue(r *RNG, leaf *Node, idc *int) *AV {
 		if r.Chance(1, 20) {
 			return &AV{K: AVStringer, ID: *idc + 3000, S: s} // re-entrant (values.go)
 		}
+		if r.Chance(1, 12) {
+			return &AV{K: AVStringer, ID: *idc + 7000, S: s} // a pointer whose text changes between evaluations (values.go, evalOn)
+		}
 		return &AV{K: AVStringer, ID: *idc, S: s}
 	}
 	wrong := func() *AV {
@@ -1057,13 +1060,20 @@ func nearValue(r *RNG, leaf *Node, idc *int) *AV {
 		return strNear(l.Text[1 : len(l.Text)-1])
 	case "ilist":
 		e := pick(r, l.Elems)
+		if r.Chance(1, 12) {
+			return avStr(strings.TrimSpace(e)) // a string that PRINTS like a member: a member of nothing
+		}
 		n, ok := parseLongText(e)
 		if !ok {
 			n = 1
 		}
 		return numNear(n)
 	case "dlist":
-		v, err := strconv.ParseFloat(pick(r, l.Elems), 64)
+		e := pick(r, l.Elems)
+		if r.Chance(1, 12) {
+			return avStr(strings.TrimSpace(e))
+		}
+		v, err := strconv.ParseFloat(e, 64)
 		if err != nil {
 			v = 1
 		}
@@ -1083,6 +1093,9 @@ func nearValue(r *RNG, leaf *Node, idc *int) *AV {
 			return &AV{K: AVOther, Tag: pick(r, []int{19, 8}), Strs: els}
 		}
 		e := pick(r, l.Elems)
+		if n, err := strconv.ParseInt(e[1:len(e)-1], 10, 64); err == nil && r.Chance(1, 4) {
+			return avInt(n) // a number that prints like a member of the string list
+		}
 		return strNear(e[1 : len(e)-1])
 	}
 	return wrong()
@@ -1450,7 +1463,43 @@ func poisonObjects(r *RNG, root *Node) []map[string]interface{} {
 	var out []map[string]interface{}
 	n := 1 + r.Intn(2)
 	for i := 0; i < n; i++ {
-		switch r.Intn(3) {
+		switch r.Intn(4) {
+		case 3:
+			// every attribute holds a value its comparison is TRUE for where that is easy to say (a member of the list, the
+			// literal itself): what an evaluator might remember about a value and hand out for one that only prints alike
+			o := avObj()
+			for _, lf := range ls {
+				if lf.T != NCmp {
+					continue
+				}
+				var v *AV
+				switch lf.Lit.Kind {
+				case "ilist":
+					if n, err := strconv.ParseInt(strings.TrimSpace(lf.Lit.Elems[0]), 10, 64); err == nil {
+						v = avInt(n)
+					}
+				case "dlist":
+					if f, err := strconv.ParseFloat(strings.TrimSpace(lf.Lit.Elems[0]), 64); err == nil {
+						v = avFloat(f)
+					}
+				case "slist":
+					if e := lf.Lit.Elems[0]; len(e) >= 2 && !strings.Contains(e, "\\") {
+						v = avStr(e[1 : len(e)-1])
+					}
+				case "long":
+					if n, ok := parseLongText(lf.Lit.Text); ok {
+						v = avInt(n)
+					}
+				case "str":
+					if t := lf.Lit.Text; len(t) >= 2 && !strings.Contains(t, "\\") {
+						v = avStr(t[1 : len(t)-1])
+					}
+				}
+				if v != nil {
+					chainTo(o, lf.Path, v)
+				}
+			}
+			out = append(out, o.GoMap())
 		case 0:
 			o := avObj()
 			lf := pick(r, ls)
